@@ -1,4 +1,4 @@
-\* exhaustive (thorough): as ExprGenMap with two source registers a, b
+\* exhaustive: every sequence of 4 partial writes of a[0:n] into the 6-bit register r of a mapper, then M(r); thorough: all 6 bits
 CONSTANTS
   Widths = {3}
   MaxSteps = 5
@@ -6,7 +6,7 @@ CONSTANTS
   FreshOnly = FALSE
   Ops = {"mset", "mget"}
   MapSpan = 6
-  MapSrc = {1, 2}
+  MapSrc = {1}
   Rand = FALSE
 INIT Init
 NEXT Next
